@@ -164,6 +164,8 @@ class Lowering:
         if k == 'member':
             base = self.resolve(t.sub)
             m = t.name
+            if base.kind == 'ptr' and m == 'element_type':
+                return base.sub       # std::shared_ptr<T>::element_type
             elem = None
             if base.kind == 'tmpl' and base.name in ('std::array', 'std::vector', 'std::span', 'std::basic_string',
                                                       'std::deque', 'std::basic_string_view'):
@@ -203,6 +205,10 @@ class Lowering:
             raise LoweringError(f'no rule for member type {t.sub!r}::{m}')
         if k == 'tmpl':
             name = t.name
+            if name in ('std::shared_ptr', 'std::weak_ptr', 'std::__shared_ptr', 'std::__weak_ptr', 'std::__shared_ptr_access') and len(t.args) >= 1:
+                # owning / observing smart pointers are lowered to plain pointers: reference counts and the lifetime they manage
+                # are not modelled (objects live as long as the harness keeps them); weak_ptr::lock() yields the pointer itself
+                return T('ptr', sub=self.resolve(t.args[0]))
             args = [self.resolve(a) for a in t.args]
             if name == '__gnu_cxx::__normal_iterator' and len(args) == 2:
                 return T('tmpl', 'iter', args=[args[1]])
@@ -213,6 +219,10 @@ class Lowering:
                 return T('tmpl', 'iter', args=[T('tmpl', 'std::unordered_map', args=list(args[0].args))])
             if name in ('std::_Deque_iterator',) and len(args) == 3:
                 return T('tmpl', 'iter', args=[T('tmpl', 'std::deque', args=[args[0]])])
+            if name in ('std::shared_ptr', 'std::weak_ptr', 'std::__shared_ptr', 'std::__weak_ptr') and len(args) >= 1:
+                # owning / observing smart pointers are lowered to plain pointers: reference counts and the lifetime they manage
+                # are not modelled (objects live as long as the harness keeps them); weak_ptr::lock() yields the pointer itself
+                return T('ptr', sub=args[0])
             if name in ('std::vector', 'std::deque', 'std::list') and len(args) >= 1:
                 args = args[:1]
             if name in ('std::basic_string', 'std::basic_string_view'):
@@ -481,12 +491,14 @@ class Lowering:
                     has_init = True
         # placeholder so that recursive mentions work
         self.typedef_names[cname] = None
-        lines = [f'typedef struct {cname} {{']
+        selfref = any(ft.kind == 'ptr' and ft.sub.kind == 'rec' and self.records.get(ft.sub.name) == cname for _, ft, _ in fields)
+        # a record that points to itself (a session's partner) needs its name before its body
+        lines = [f'typedef struct {cname} {cname};', f'struct {cname} {{'] if selfref else [f'typedef struct {cname} {{']
         for fname, ft, _ in fields:
             lines.append('  ' + self.decl(ft, fname) + ';')
         if not fields:
             lines.append('  char _empty;')
-        lines.append(f'}} {cname};')
+        lines.append('};' if selfref else f'}} {cname};')
         text = '\n'.join(lines)
         self.typedef_names[cname] = text
         self.typedefs.append(text)
